@@ -2,6 +2,7 @@ import ChiModel.Covariate
 import ChiModel.Hier
 import ChiProofs.Lemmas.C07Sel
 import ChiProofs.Lemmas.C07Num
+import ChiProofs.Props.C05
 import Mathlib.Tactic.NormNum
 import Mathlib.Tactic.Linarith
 
@@ -187,6 +188,70 @@ theorem C07_setpop_out_of_range (perDim nDim : Nat) (indices : List (Int × Int)
     omega
   simp [h1, h2]
 
+/-! ### `set_n_ids` around a heterogeneous model (known finding `C07.set_n_ids/HeterogeneousModel`) -/
+
+
+theorem C07_hetBaseNames_length (n nDim : Nat) : (hetBaseNames n nDim).length = n * nDim := by
+  unfold hetBaseNames
+  rw [flatMap_block_length _ nDim _ (by intro a _; simp), List.length_range]
+
+/-- a freshly constructed wrapper around a heterogeneous model with `n` individuals (= what the
+    proposed `set_n_ids` repair yields when the user made no selection): the names cover exactly
+    `n_parameters()` and a vector of that length passes the split -/
+theorem C07_set_n_ids_intended (n nDim nCov : Nat) (dims covs : List String) :
+    let h := CovHet.construct n nDim nCov dims covs
+    h.evaluable = true ∧ (h.m.parameterNames false).length = h.nParameters ∧
+    ∀ h0 : CovHet, h0.m.nDim = nDim → h0.m.nCov = nCov → h0.m.dimNames = dims → h0.m.covNames = covs →
+      h0.setNIdsIntended n = h := by
+  intro h
+  have hsel : h.m.sel.length = n * nDim := by
+    show (normSel (ctorIndices n nDim)).length = _
+    rw [normSel_ctor, flatPairs_length]
+  have hnp : h.nParameters = n * nDim + nCov * (n * nDim) := by
+    unfold CovHet.nParameters; rw [hsel]; rfl
+  refine ⟨?_, ?_, ?_⟩
+  · unfold CovHet.evaluable
+    rw [hnp, hsel]
+    have : h.nPopSplit = n * nDim := rfl
+    have hm : h.m.nCov = nCov := rfl
+    rw [this, hm, Nat.add_sub_cancel_left, Nat.mul_comm nCov]
+    simp
+  · rw [hnp]
+    unfold CovModel.parameterNames
+    simp only [Bool.false_eq_true, if_false, List.length_append]
+    have h1 : (popFullNames h.m.nDim h.m.baseNames h.m.dimNames).length = n * nDim := by
+      simp only [popFullNames, List.length_map, List.length_range]
+      exact C07_hetBaseNames_length n nDim
+    have h2 : (withCovNames h.m.nCov h.m.stored h.m.covNames).length = n * nDim * nCov := by
+      simp only [withCovNames, List.length_map, List.length_range]
+      show ((popFullNames nDim (hetBaseNames n nDim) dims).flatMap (fun x => List.replicate nCov x)).length = _
+      rw [flatMap_block_length _ nCov _ (by intro a _; simp)]
+      simp [popFullNames, C07_hetBaseNames_length]
+    rw [h1, h2, Nat.mul_comm nCov]
+  · intro h0 e1 e2 e3 e4
+    unfold CovHet.setNIdsIntended
+    rw [e1, e2, e3, e4]
+
+/-- the code as it is: wrap a 1-individual heterogeneous model (the default), then
+    `set_n_ids(2)`: `n_parameters()` says 3, there are 3 names (`ID 1`, `ID 2` and ONE β — the new
+    row has no β), and no vector of that length can be evaluated (the β block is read from
+    position `_n_pop = 1`: 2 entries for 1 β → reshape `ValueError`); the repair gives 4 / 4 /
+    evaluable. -/
+theorem C07_set_n_ids_counterexample :
+    let h := (CovHet.construct 1 1 1 ["Dim. 1"] ["Cov. 1"]).setNIds 2
+    h.nParameters = 3 ∧ (h.m.parameterNames false).length = 3 ∧ h.evaluable = false ∧
+    ((CovHet.construct 1 1 1 ["Dim. 1"] ["Cov. 1"]).setNIdsIntended 2).nParameters = 4 := by
+  decide
+
+/-- nothing goes wrong as long as the number of individuals is the one at construction -/
+theorem C07_set_n_ids_partial (n nDim nCov : Nat) (dims covs : List String) :
+    let h := (CovHet.construct n nDim nCov dims covs).setNIds n
+    h.evaluable = true ∧ h.nParameters = (CovHet.construct n nDim nCov dims covs).nParameters := by
+  intro h
+  have e : h.evaluable = (CovHet.construct n nDim nCov dims covs).evaluable := rfl
+  exact ⟨by rw [e]; exact (C07_set_n_ids_intended n nDim nCov dims covs).1, rfl⟩
+
+
 /-! ### the pre-fix selection -/
 
 /-- pre-fix, through the population model (rows arrive as numpy arrays): ANY two or more pairs
@@ -326,24 +391,17 @@ section erf
 variable [HasErf ℝ]
 
 /-- … hence likelihood and individual parameters coincide with the wrapped model evaluated on
-    `ϑ₀` (the first `n_pop` entries, as `(n_per_dim, n_dim)`); heterogeneous wrapped models are
-    excluded here (`C07_hetero_ll_counterexample`). -/
-theorem C07_zero_ll (k : Kind) (hk : k ≠ .hetero) (c : CovCfg) (nIds : Nat) (params : List ℝ)
+    `ϑ₀` (the first `n_pop` entries, as `(n_per_dim, n_dim)`) — for every wrapped kind. -/
+theorem C07_zero_ll (k : Kind) (c : CovCfg) (nIds : Nat) (params : List ℝ)
     (hlen : params.length = c.nParams) (cov : Nat → Nat → ℝ) (obs : Nat → Nat → ℝ)
     (h : (∀ i j, cov i j = 0) ∨ (∀ j, c.nPop ≤ j → vecOf params j = 0)) :
-    covLL true k c nIds params cov obs
+    covLL k c nIds params cov obs
       = .ok (popLL k nIds c.nDim (fun _ p d => vecOf params (p * c.nDim + d)) obs) := by
-  unfold covLL
+  unfold covLL covLLcore
   simp only [hlen, ne_eq, not_true_eq_false, if_false]
   have : covTh c (vecOf params) cov = fun _ p d => vecOf params (p * c.nDim + d) := by
     funext i p d; exact C07_zero c (vecOf params) cov h i p d
   rw [this]
-  cases k with
-  | hetero => exact absurd rfl hk
-  | gauss b => rfl
-  | logn b => rfl
-  | trunc => rfl
-  | pooled => rfl
 
 theorem C07_zero_indiv (k : Kind) (c : CovCfg) (nIds : Nat) (params : List ℝ)
     (hlen : params.length = c.nParams) (cov : Nat → Nat → ℝ) (eta : Nat → Nat → ℝ)
@@ -361,40 +419,46 @@ theorem C07_zero_indiv (k : Kind) (c : CovCfg) (nIds : Nat) (params : List ℝ)
 
 /-- The covariate model's log-likelihood is the wrapped model evaluated SEPARATELY for each
     individual `i` with the parameters `ϑ_i` (a one-individual call of `popLL` with parameters
-    that do not vary), added up with Python's float addition — for Gaussian, log-normal (centred
-    and not), truncated Gaussian and pooled wrapped models, every `n_ids`, `n_dim`, `n_cov`,
-    selection, covariate matrix and parameter vector of the right length (a wrong length is a
-    `ValueError`), support guards included. -/
-theorem C07_equiv_per_individual (k : Kind) (hk : k ≠ .hetero) (c : CovCfg) (nIds : Nat)
+    that do not vary; heterogeneous: the one-individual model holds individual `i`'s own row),
+    added up with Python's float addition — for EVERY wrapped kind (Gaussian, log-normal, centred
+    and not, truncated Gaussian, pooled, heterogeneous), every `n_ids`, `n_dim`, `n_cov`, selection,
+    covariate matrix and parameter vector of the right length (a wrong length is a `ValueError`),
+    support guards included. -/
+theorem C07_equiv_per_individual (k : Kind) (c : CovCfg) (nIds : Nat)
     (params : List ℝ) (cov : Nat → Nat → ℝ) (obs : Nat → Nat → ℝ) :
-    covLL true k c nIds params cov obs =
+    covLL k c nIds params cov obs =
       if params.length ≠ c.nParams then .error .valueError
       else .ok (scoreSum nIds (perIndividualLL k c.nDim (covTh c (vecOf params) cov) obs)) := by
-  unfold covLL
+  unfold covLL covLLcore
   split
   · rfl
-  · congr 1
-    rw [← popLL_per_individual k hk]
-    cases k with
-    | hetero => exact absurd rfl hk
-    | gauss b => rfl
-    | logn b => rfl
-    | trunc => rfl
-    | pooled => rfl
+  · rw [← popLL_per_individual k]
 
-/-- A wrapped `HeterogeneousModel` with two individuals, one dimension, one covariate, all
-    covariates zero, `ϑ₀ = (1, 2)`: the individuals' own parameters are `ψ = (1, 2)`
-    (`compute_individual_parameters`: individual `i` ↔ row `i`), yet the code scores them `-inf`
-    (it compares everybody with row 0), where the wrapped model itself — and the reading
-    "individual `i` ↔ row `i`" (`legacyHetero = false`, i.e. PopModels' `popLL`) — gives `0`. -/
+/-- the pre-`04b584d` code satisfied this for every kind but the heterogeneous one -/
+theorem C07_equiv_per_individual_legacy_partial (k : Kind) (hk : k ≠ .hetero) (c : CovCfg) (nIds : Nat)
+    (params : List ℝ) (cov : Nat → Nat → ℝ) (obs : Nat → Nat → ℝ) :
+    covLLLegacy k c nIds params cov obs = covLL k c nIds params cov obs := by
+  unfold covLLLegacy covLL covLLcoreLegacy covLLcore
+  cases k with
+  | hetero => exact absurd rfl hk
+  | gauss b => rfl
+  | logn b => rfl
+  | trunc => rfl
+  | pooled => rfl
+
+/-- Pre-`04b584d`: a wrapped `HeterogeneousModel` with two individuals, one dimension, one
+    covariate, all covariates zero, `ϑ₀ = (1, 2)`: the individuals' own parameters are `ψ = (1, 2)`
+    (`compute_individual_parameters`: individual `i` ↔ row `i`), yet the legacy code scored them
+    `-inf` (it compared everybody with row 0), where the wrapped model itself — and the repaired
+    code — gives `0`. -/
 theorem C07_hetero_ll_counterexample :
     let c : CovCfg := ⟨1, 2, 1, [(0, 0), (1, 0)]⟩
     let params : List ℝ := [1, 2, 0, 0]
     let cov : Nat → Nat → ℝ := fun _ _ => 0
     let obs : Nat → Nat → ℝ := fun i _ => if i = 0 then 1 else 2
     covIndiv .hetero c 2 params cov obs = .ok [[.val 1], [.val 2]] ∧
-    covLL true .hetero c 2 params cov obs = .ok .negInf ∧
-    covLL false .hetero c 2 params cov obs = .ok (.val 0) ∧
+    covLLLegacy .hetero c 2 params cov obs = .ok .negInf ∧
+    covLL .hetero c 2 params cov obs = .ok (.val 0) ∧
     popLL .hetero 2 1 (fun _ p d => vecOf params (p * 1 + d)) obs = .val 0 := by
   intro c params cov obs
   have hth : ∀ i p, p < 2 → covTh c (vecOf params) cov i p 0 = (if p = 0 then 1 else 2) := by
@@ -404,7 +468,7 @@ theorem C07_hetero_ll_counterexample :
     rcases hp' with rfl | rfl <;> simp [vecOf, params, c]
   refine ⟨?_, ?_, ?_, ?_⟩
   · simp [covIndiv, params, c, CovCfg.nParams, CovCfg.nPop, CovCfg.nBeta, indiv, List.range_succ, hth]
-  · simp [covLL, covLLcore, params, c, CovCfg.nParams, CovCfg.nPop, CovCfg.nBeta, iany2, iany,
+  · simp [covLLLegacy, covLLcoreLegacy, params, c, CovCfg.nParams, CovCfg.nPop, CovCfg.nBeta, iany2, iany,
       List.range_succ, hth, obs]
   · simp [covLL, covLLcore, popLL, params, c, CovCfg.nParams, CovCfg.nPop, CovCfg.nBeta, iany2, iany,
       List.range_succ, hth, obs, zero]
@@ -570,64 +634,76 @@ theorem C07_grad_partial (c : CovCfg) (hn : c.sel.Nodup) (hr : c.InRange) (nIds 
   rw [hsum] at this
   exact this
 
-/-- the `reduce=True` form for the wrapped kinds with individual-level entries (Gaussian,
-    log-normal, truncated Gaussian): the code as it is agrees with what the composed model
-    expects — `n_ids · n_dim` bottom entries followed by `dtheta` — and has the announced length -/
-theorem C07_grad_reduced_partial {α : Type} [Add α] [Sub α] [Mul α] [Div α] [Neg α] [ScalarFns α]
+/-- The `reduce=True` form of the code as it is, for EVERY wrapped kind: it has the length
+    `n_hierarchical_parameters` announces; kinds with individual-level entries (Gaussian,
+    log-normal, truncated Gaussian) return the `n_ids · n_dim` bottom entries followed by `dtheta`;
+    pooled / heterogeneous models return the top-level block only, which is the transposed map
+    applied to `g + dpsi` on the row that IS the individual's parameter (`ψ_i = ϑ_i[0,·]` resp.
+    `ϑ_i[i,·]`): `∂/∂ϑ₀[row,d] ∋ Σ_i dpsi_i[d]`, `∂/∂β[s,c] = Σ_i χ_{i,c} (g_i + dpsi_i)[p_s,d_s]`. -/
+theorem C07_grad_reduced {α : Type} [Add α] [Sub α] [Mul α] [Div α] [Neg α] [ScalarFns α]
+    (k : Kind) (c : CovCfg) (nIds : Nat)
+    (dpsi : Nat → Nat → α) (g : Nat → Nat → Nat → α) (cov : Nat → Nat → α) :
+    (covReduced k c nIds dpsi g cov).length = (covNHier k c nIds).1 + (covNHier k c nIds).2 ∧
+    (k.hierarchical = true →
+      (covReduced k c nIds dpsi g cov).take (nIds * c.nDim)
+        = (List.range nIds).flatMap (fun i => (List.range c.nDim).map (fun d => dpsi i d)) ∧
+      (covReduced k c nIds dpsi g cov).drop (nIds * c.nDim) = covSens c nIds g cov) ∧
+    (k.hierarchical = false →
+      covReduced k c nIds dpsi g cov
+        = covSens c nIds (fun i p d => if p = ownRow k i then g i p d + dpsi i d else g i p d) cov) := by
+  have hl : ((List.range nIds).flatMap (fun i => (List.range c.nDim).map (fun d => dpsi i d))).length
+      = nIds * c.nDim := by
+    rw [flatMap_block_length _ c.nDim _ (by intro a _; simp), List.length_range]
+  refine ⟨?_, ?_, ?_⟩
+  · cases hk : k.hierarchical
+    · simp only [covReduced, hk, Bool.false_eq_true, if_false, (C07_grad_entries c nIds _ cov).1,
+        covNHier, Nat.zero_add]
+    · simp only [covReduced, hk, if_true, List.length_append, hl, (C07_grad_entries c nIds g cov).1,
+        covNHier]
+  · intro hk
+    simp only [covReduced, hk, if_true]
+    constructor
+    · rw [List.take_append_of_le_length (by rw [hl]), ← hl, List.take_length]
+    · rw [List.drop_append_of_le_length (by rw [hl]), ← hl, List.drop_length, List.nil_append]
+  · intro hk
+    simp only [covReduced, hk, Bool.false_eq_true, if_false]
+
+/-- pre-`3d6f67b` the code returned `hstack(dpsi.flatten(), dtheta)` for every kind: right for
+    the kinds with individual-level entries … -/
+theorem C07_grad_reduced_legacy_partial {α : Type} [Add α] [Sub α] [Mul α] [Div α] [Neg α] [ScalarFns α]
     (k : Kind) (hk : k.hierarchical = true) (c : CovCfg) (nIds : Nat)
     (dpsi : Nat → Nat → α) (g : Nat → Nat → Nat → α) (cov : Nat → Nat → α) :
-    covReduced true k c nIds dpsi g cov = covReduced false k c nIds dpsi g cov ∧
-    (covReduced true k c nIds dpsi g cov).length = (covNHier k c nIds).1 + (covNHier k c nIds).2 ∧
-    (covReduced true k c nIds dpsi g cov).drop (nIds * c.nDim) = covSens c nIds g cov := by
-  have hl : ((List.range nIds).flatMap (fun i => (List.range c.nDim).map (fun d => dpsi i d))).length
-      = nIds * c.nDim := by
-    rw [flatMap_block_length _ c.nDim _ (by intro a _; simp), List.length_range]
-  refine ⟨by simp [covReduced, hk], ?_, ?_⟩
-  · simp only [covReduced, hk, Bool.or_true, if_true, List.length_append, hl,
-      (C07_grad_entries c nIds g cov).1, covNHier]
-  · simp only [covReduced, Bool.true_or, if_true]
-    rw [List.drop_append_of_le_length (by rw [hl]), ← hl, List.drop_length, List.nil_append]
+    covReducedLegacy c nIds dpsi g cov = covReduced k c nIds dpsi g cov := by
+  simp [covReducedLegacy, covReduced, hk]
 
-/-- …and for a wrapped `PooledModel` / `HeterogeneousModel` (no individual-level entries) the
-    code as it is returns `n_ids · n_dim` entries too many — the composed model's slice
-    assignment then fails to broadcast — and its top-level block ignores the upstream `dpsi`:
-    with `g = 0` it is all zeros, whatever `dpsi` is. -/
+/-- …and for a wrapped `PooledModel` / `HeterogeneousModel` (no individual-level entries) it
+    returned `n_ids · n_dim` entries too many — the composed model's slice assignment then failed
+    to broadcast — and its top-level block ignored the upstream `dpsi`: with `g = 0` it is all
+    zeros, whatever `dpsi` is, where the repaired code carries `Σ_i dpsi_i` to `ϑ₀`. -/
 theorem C07_grad_pooled_counterexample (k : Kind) (hk : k.hierarchical = false) (c : CovCfg)
     (nIds : Nat) (hids : 0 < nIds) (hdim : 0 < c.nDim) (dpsi : Nat → Nat → ℝ) (cov : Nat → Nat → ℝ) :
-    (covReduced true k c nIds dpsi (fun _ _ _ => 0) cov).length
+    (covReducedLegacy c nIds dpsi (fun _ _ _ => 0) cov).length
       = nIds * c.nDim + ((covNHier k c nIds).1 + (covNHier k c nIds).2) ∧
-    (covReduced true k c nIds dpsi (fun _ _ _ => 0) cov).length
+    (covReducedLegacy c nIds dpsi (fun _ _ _ => 0) cov).length
       ≠ (covNHier k c nIds).1 + (covNHier k c nIds).2 ∧
-    ∀ j, j < c.nParams → covSensAt c nIds (fun _ _ _ => (0 : ℝ)) cov j = 0 := by
+    (∀ j, j < c.nParams → covSensAt c nIds (fun _ _ _ => (0 : ℝ)) cov j = 0) ∧
+    (covReduced k c nIds dpsi (fun _ _ _ => 0) cov).length
+      = (covNHier k c nIds).1 + (covNHier k c nIds).2 := by
   have hl : ((List.range nIds).flatMap (fun i => (List.range c.nDim).map (fun d => dpsi i d))).length
       = nIds * c.nDim := by
     rw [flatMap_block_length _ c.nDim _ (by intro a _; simp), List.length_range]
-  have hlen : (covReduced true k c nIds dpsi (fun _ _ _ => 0) cov).length
+  have hlen : (covReducedLegacy c nIds dpsi (fun _ _ _ => 0) cov).length
       = nIds * c.nDim + ((covNHier k c nIds).1 + (covNHier k c nIds).2) := by
-    simp only [covReduced, Bool.true_or, if_true, List.length_append, hl,
+    simp only [covReducedLegacy, List.length_append, hl,
       (C07_grad_entries c nIds (fun _ _ _ => (0 : ℝ)) cov).1, covNHier, hk, Bool.false_eq_true, if_false,
       Nat.zero_add]
-  refine ⟨hlen, ?_, ?_⟩
+  refine ⟨hlen, ?_, ?_, (C07_grad_reduced k c nIds dpsi _ cov).1⟩
   · rw [hlen]
     have : 0 < nIds * c.nDim := Nat.mul_pos hids hdim
     omega
   · intro j _
     unfold covSensAt covSensPop covSensBeta
     split <;> simp [isum_eq]
-
-/-- the intended reduced form over a pooled model: `n_parameters` entries, the upstream `dpsi`
-    carried through `ψ_i = ϑ_i[0, ·]`: it is the transpose applied to `g + dpsi` on row 0, so that
-    `∂/∂ϑ₀[0,d] = Σ_i (g_i[0,d] + dpsi_i[d])` and `∂/∂β[s,c] = Σ_i χ_{i,c} (g_i + dpsi_i)[d_s]` -/
-theorem C07_grad_pooled_intended (c : CovCfg) (nIds : Nat) (dpsi : Nat → Nat → ℝ)
-    (g : Nat → Nat → Nat → ℝ) (cov : Nat → Nat → ℝ) :
-    covReduced false .pooled c nIds dpsi g cov
-      = covSens c nIds (fun i p d => if p = 0 then g i p d + dpsi i d else g i p d) cov ∧
-    (covReduced false .pooled c nIds dpsi g cov).length
-      = (covNHier .pooled c nIds).1 + (covNHier .pooled c nIds).2 := by
-  refine ⟨by simp [covReduced, Kind.hierarchical], ?_⟩
-  simp only [covReduced, Kind.hierarchical, Bool.or_self, Bool.false_eq_true, if_false,
-    (C07_grad_entries c nIds _ cov).1, covNHier, Nat.zero_add]
-
 
 /-- The pre-fix ordering (argsort by `d`, then argsort by `p`) is right PROVIDED the second sort
     is stable: whatever admissible permutation the first sort produced (`mid`), the stable sort by
@@ -738,6 +814,294 @@ theorem C07_grad_gauss (c : CovCfg) (hn : c.sel.Nodup) (hr : c.InRange) (hper : 
   rw [h0] at this
   rw [hper]
   exact this
+
+
+/-! ## 6b. end to end for every wrapped kind, through the C05 theorems
+
+`C05_<kind>_grad` (Props/C05.lean) give, for the wrapped model on the per-individual parameter
+tensor, the total derivative along any differentiable curve of individual parameters, locations and
+scales. Composed with `C07_th_hasDerivAt` (the curve of `ϑ_i` induced by a curve of `(ϑ₀, β)`) and
+`C07_grad` (the transpose) they yield: the vector chi returns with `reduce=True` is the gradient of
+`upstream part + covariate-model log-likelihood` w.r.t. (individual-level entries, `ϑ₀`, `β`). -/
+
+
+/-- entry `j` of the gradient list is `covSensAt j` -/
+theorem C07_covSens_getElem_opt (c : CovCfg) (nIds : Nat) (g : Nat → Nat → Nat → ℝ) (cov : Nat → Nat → ℝ)
+    (j : Nat) (hj : j < c.nParams) : (covSens c nIds g cov)[j]? = some (covSensAt c nIds g cov j) := by
+  obtain ⟨_, h1, h2⟩ := C07_grad_entries c nIds g cov
+  unfold covSensAt
+  by_cases hlt : j < c.nPop
+  · have hpos : 0 < c.nDim := by
+      rcases Nat.eq_zero_or_pos c.nDim with h | h
+      · simp [CovCfg.nPop, h] at hlt
+      · exact h
+    have hp : j / c.nDim < c.perDim := by
+      rw [Nat.div_lt_iff_lt_mul hpos]; exact hlt
+    have := h1 (j / c.nDim) (j % c.nDim) hp (Nat.mod_lt _ hpos)
+    rw [div_mod_index c.nDim j hpos] at this
+    simp only [hlt, if_true, covSensPop]
+    exact this
+  · have hge : c.nPop ≤ j := Nat.le_of_not_lt hlt
+    have hjb : j - c.nPop < c.sel.length * c.nCov := by
+      unfold CovCfg.nParams CovCfg.nBeta at hj; omega
+    have hpos : 0 < c.nCov := by
+      rcases Nat.eq_zero_or_pos c.nCov with h | h
+      · simp [h] at hjb
+      · exact h
+    have hs : (j - c.nPop) / c.nCov < c.sel.length := by
+      rw [Nat.div_lt_iff_lt_mul hpos]; exact hjb
+    have := h2 ((j - c.nPop) / c.nCov) ((j - c.nPop) % c.nCov) hs (Nat.mod_lt _ hpos)
+    rw [Nat.add_assoc, div_mod_index c.nCov _ hpos, Nat.add_sub_cancel' hge] at this
+    simp only [hlt, if_false, covSensBeta, List.getD_eq_getElem?_getD, List.getElem?_eq_getElem hs,
+      Option.getD_some]
+    exact this
+
+/-- pushing a `(location, scale)` gradient through the covariate model: the part of a total
+    derivative that goes through `ϑ_i[0,·]` and `ϑ_i[1,·]` is `⟨covSens dth, θ'⟩` -/
+theorem C07_cov_chain (c : CovCfg) (hn : c.sel.Nodup) (hr : c.InRange) (hper : c.perDim = 2) (nIds : Nat)
+    (cov : Nat → Nat → ℝ) (θ' : Nat → ℝ) (F : ℝ → ℝ) (t : ℝ) (a b : Nat → Nat → ℝ)
+    (dth : Nat → Nat → Nat → ℝ)
+    (h : HasDerivAt F (isum2 nIds c.nDim (fun i d => a i d * b i d
+      + dth i 0 d * covTh c θ' cov i 0 d + dth i 1 d * covTh c θ' cov i 1 d)) t) :
+    HasDerivAt F (isum2 nIds c.nDim (fun i d => a i d * b i d)
+      + ∑ j ∈ Finset.range c.nParams, covSensAt c nIds dth cov j * θ' j) t := by
+  refine h.congr_deriv ?_
+  rw [← C07_grad c hn hr nIds dth cov θ', hper]
+  simp only [isum2_eq, Finset.sum_range_succ, Finset.sum_range_zero, zero_add,
+    ← Finset.sum_add_distrib]
+  refine Finset.sum_congr rfl fun i _ => Finset.sum_congr rfl fun d _ => ?_
+  ring
+
+
+/-- END TO END, centred Gaussian wrapped model, via C05: along ANY differentiable curve of individual parameters `ψ` and flat covariate-model parameters `θ = (ϑ₀, β)` with positive shifted scales, `upstream part + covariate-model log-likelihood` has derivative `⟨dpsi, ψ'⟩ + ⟨dtheta, θ'⟩` with chi's outputs (`dpsi` incl. `dlogp_dpsi`; `dtheta = hstack(dpop, dcov)` = the wrapped model's `dtheta` through the covariate model): the `reduce` vector `[dpsi.flatten(), dtheta]` is the full gradient -/
+theorem C07_grad_gauss_centred (c : CovCfg) (hn : c.sel.Nodup) (hr : c.InRange) (hper : c.perDim = 2)
+    (nIds : Nat) (cov : Nat → Nat → ℝ) (θ : ℝ → Nat → ℝ) (θ' : Nat → ℝ) (t : ℝ)
+    (hθ : ∀ j, HasDerivAt (fun s => θ s j) (θ' j) t)
+    (psi : Nat → Nat → ℝ → ℝ) (psi' : Nat → Nat → ℝ)
+    (hpsi : ∀ i d, i < nIds → d < c.nDim → HasDerivAt (psi i d) (psi' i d) t)
+    (up : Option (Nat → Nat → ℝ)) (L : (Nat → Nat → ℝ) → ℝ)
+    (hL : HasGradientAt nIds c.nDim L (upAt up) (fun i d => psi i d t))
+    (hpos : ∀ i d, i < nIds → d < c.nDim → 0 < covTh c (θ t) cov i 1 d) :
+    let so := popSens (.gauss true) nIds c.nDim (covTh c (θ t) cov) (fun i d => psi i d t) up
+    so.defined = true ∧
+    covLLcore (.gauss true) nIds c.nDim (covTh c (θ t) cov) (fun i d => psi i d t) = so.score ∧
+    HasDerivAt (fun s => L (fun i d => psi i d s)
+        + gaussCLLraw nIds c.nDim (fun i d => covTh c (θ s) cov i 0 d) (fun i d => covTh c (θ s) cov i 1 d)
+            (fun i d => psi i d s))
+      (isum2 nIds c.nDim (fun i d => so.dpsi i d * psi' i d)
+        + ∑ j ∈ Finset.range c.nParams, covSensAt c nIds so.dtheta cov j * θ' j) t := by
+  intro so
+  have h := C05_gauss_grad nIds c.nDim (fun i d s => covTh c (θ s) cov i 0 d)
+    (fun i d s => covTh c (θ s) cov i 1 d) psi (fun i d => covTh c θ' cov i 0 d)
+    (fun i d => covTh c θ' cov i 1 d) psi' t up L
+    (fun i d _ _ => covTh_hasDerivAt c θ θ' t hθ cov i 0 d)
+    (fun i d _ _ => covTh_hasDerivAt c θ θ' t hθ cov i 1 d) hpsi hpos hL
+  have e1 := popSens_gauss nIds c.nDim (thOf (fun i d => covTh c (θ t) cov i 0 d)
+    (fun i d => covTh c (θ t) cov i 1 d)) (fun i d => psi i d t) up
+    (by intro i d hi hd; simpa [thOf] using hpos i d hi hd)
+  have e2 : so = _ := popSens_gauss nIds c.nDim (covTh c (θ t) cov) (fun i d => psi i d t) up hpos
+  simp only [thOf, if_true, one_ne_zero, if_false] at e1
+  rw [e1, ← e2] at h
+  obtain ⟨hdef, hscore, hder⟩ := h
+  refine ⟨hdef, ?_, C07_cov_chain c hn hr hper nIds cov θ' _ t so.dpsi psi' so.dtheta hder⟩
+  rw [e2]
+  exact popLL_gauss_val nIds c.nDim (covTh c (θ t) cov) (fun i d => psi i d t) hpos
+
+/-- END TO END, centred log-normal wrapped model (via C05_logn_grad) -/
+theorem C07_grad_logn_centred (c : CovCfg) (hn : c.sel.Nodup) (hr : c.InRange) (hper : c.perDim = 2)
+    (nIds : Nat) (cov : Nat → Nat → ℝ) (θ : ℝ → Nat → ℝ) (θ' : Nat → ℝ) (t : ℝ)
+    (hθ : ∀ j, HasDerivAt (fun s => θ s j) (θ' j) t)
+    (psi : Nat → Nat → ℝ → ℝ) (psi' : Nat → Nat → ℝ)
+    (hpsi : ∀ i d, i < nIds → d < c.nDim → HasDerivAt (psi i d) (psi' i d) t)
+    (up : Option (Nat → Nat → ℝ)) (L : (Nat → Nat → ℝ) → ℝ)
+    (hL : HasGradientAt nIds c.nDim L (upAt up) (fun i d => psi i d t))
+    (hpos : ∀ i d, i < nIds → d < c.nDim → 0 < covTh c (θ t) cov i 1 d)
+    (hppos : ∀ i d, i < nIds → d < c.nDim → 0 < psi i d t) :
+    let so := popSens (.logn true) nIds c.nDim (covTh c (θ t) cov) (fun i d => psi i d t) up
+    so.defined = true ∧
+    covLLcore (.logn true) nIds c.nDim (covTh c (θ t) cov) (fun i d => psi i d t) = so.score ∧
+    HasDerivAt (fun s => L (fun i d => psi i d s)
+        + lognCLLraw nIds c.nDim (fun i d => covTh c (θ s) cov i 0 d) (fun i d => covTh c (θ s) cov i 1 d)
+            (fun i d => psi i d s))
+      (isum2 nIds c.nDim (fun i d => so.dpsi i d * psi' i d)
+        + ∑ j ∈ Finset.range c.nParams, covSensAt c nIds so.dtheta cov j * θ' j) t := by
+  intro so
+  have h := C05_logn_grad nIds c.nDim (fun i d s => covTh c (θ s) cov i 0 d)
+    (fun i d s => covTh c (θ s) cov i 1 d) psi (fun i d => covTh c θ' cov i 0 d)
+    (fun i d => covTh c θ' cov i 1 d) psi' t up L
+    (fun i d _ _ => covTh_hasDerivAt c θ θ' t hθ cov i 0 d)
+    (fun i d _ _ => covTh_hasDerivAt c θ θ' t hθ cov i 1 d) hpsi hpos hppos hL
+  have e1 := popSens_logn nIds c.nDim (thOf (fun i d => covTh c (θ t) cov i 0 d)
+    (fun i d => covTh c (θ t) cov i 1 d)) (fun i d => psi i d t) up
+    (by intro i d hi hd; simpa [thOf] using hpos i d hi hd) hppos
+  have e2 : so = _ := popSens_logn nIds c.nDim (covTh c (θ t) cov) (fun i d => psi i d t) up hpos hppos
+  simp only [thOf, if_true, one_ne_zero, if_false] at e1
+  rw [e1, ← e2] at h
+  obtain ⟨hdef, hscore, hder⟩ := h
+  refine ⟨hdef, ?_, C07_cov_chain c hn hr hper nIds cov θ' _ t so.dpsi psi' so.dtheta hder⟩
+  rw [e2]
+  exact popLL_logn_val nIds c.nDim (covTh c (θ t) cov) (fun i d => psi i d t) hpos hppos
+
+/-- END TO END, truncated-Gaussian wrapped model (via C05_trunc_grad) -/
+theorem C07_grad_trunc (c : CovCfg) (hn : c.sel.Nodup) (hr : c.InRange) (hper : c.perDim = 2)
+    (nIds : Nat) (cov : Nat → Nat → ℝ) (θ : ℝ → Nat → ℝ) (θ' : Nat → ℝ) (t : ℝ)
+    (hθ : ∀ j, HasDerivAt (fun s => θ s j) (θ' j) t)
+    (psi : Nat → Nat → ℝ → ℝ) (psi' : Nat → Nat → ℝ)
+    (hpsi : ∀ i d, i < nIds → d < c.nDim → HasDerivAt (psi i d) (psi' i d) t)
+    (up : Option (Nat → Nat → ℝ)) (L : (Nat → Nat → ℝ) → ℝ)
+    (hL : HasGradientAt nIds c.nDim L (upAt up) (fun i d => psi i d t))
+    (hpos : ∀ i d, i < nIds → d < c.nDim → 0 < covTh c (θ t) cov i 1 d)
+    (hppos : ∀ i d, i < nIds → d < c.nDim → 0 ≤ psi i d t) :
+    let so := popSens .trunc nIds c.nDim (covTh c (θ t) cov) (fun i d => psi i d t) up
+    so.defined = true ∧
+    covLLcore .trunc nIds c.nDim (covTh c (θ t) cov) (fun i d => psi i d t) = so.score ∧
+    HasDerivAt (fun s => L (fun i d => psi i d s)
+        + truncLLraw nIds c.nDim (fun i d => covTh c (θ s) cov i 0 d) (fun i d => covTh c (θ s) cov i 1 d)
+            (fun i d => psi i d s))
+      (isum2 nIds c.nDim (fun i d => so.dpsi i d * psi' i d)
+        + ∑ j ∈ Finset.range c.nParams, covSensAt c nIds so.dtheta cov j * θ' j) t := by
+  intro so
+  have h := C05_trunc_grad nIds c.nDim (fun i d s => covTh c (θ s) cov i 0 d)
+    (fun i d s => covTh c (θ s) cov i 1 d) psi (fun i d => covTh c θ' cov i 0 d)
+    (fun i d => covTh c θ' cov i 1 d) psi' t up L
+    (fun i d _ _ => covTh_hasDerivAt c θ θ' t hθ cov i 0 d)
+    (fun i d _ _ => covTh_hasDerivAt c θ θ' t hθ cov i 1 d) hpsi hpos hppos hL
+  have e1 := popSens_trunc nIds c.nDim (thOf (fun i d => covTh c (θ t) cov i 0 d)
+    (fun i d => covTh c (θ t) cov i 1 d)) (fun i d => psi i d t) up
+    (by intro i d hi hd; simpa [thOf] using hpos i d hi hd) hppos
+  have e2 : so = _ := popSens_trunc nIds c.nDim (covTh c (θ t) cov) (fun i d => psi i d t) up hpos hppos
+  simp only [thOf, if_true, one_ne_zero, if_false] at e1
+  rw [e1, ← e2] at h
+  obtain ⟨hdef, hscore, hder⟩ := h
+  refine ⟨hdef, ?_, C07_cov_chain c hn hr hper nIds cov θ' _ t so.dpsi psi' so.dtheta hder⟩
+  rw [e2]
+  exact popLL_trunc_val nIds c.nDim (covTh c (θ t) cov) (fun i d => psi i d t) hpos hppos
+
+
+/-- END TO END, non-centred Gaussian wrapped model (`ψ_i = ϑ_i[0] + ϑ_i[1] η_i`, via C05_gaussNC_grad): the derivative of `L(ψ(η, θ)) + log N(η; 0, 1)` along any curve of `(η, θ)` is `⟨deta, η'⟩ + ⟨dtheta, θ'⟩` with chi's outputs — the upstream sensitivities reach `ϑ₀` and `β` through `ψ` and the covariate model -/
+theorem C07_grad_gauss_noncentred (c : CovCfg) (hn : c.sel.Nodup) (hr : c.InRange) (hper : c.perDim = 2)
+    (nIds : Nat) (cov : Nat → Nat → ℝ) (θ : ℝ → Nat → ℝ) (θ' : Nat → ℝ) (t : ℝ)
+    (hθ : ∀ j, HasDerivAt (fun s => θ s j) (θ' j) t)
+    (eta : Nat → Nat → ℝ → ℝ) (eta' : Nat → Nat → ℝ)
+    (heta : ∀ i d, i < nIds → d < c.nDim → HasDerivAt (eta i d) (eta' i d) t)
+    (up : Option (Nat → Nat → ℝ)) (L : (Nat → Nat → ℝ) → ℝ)
+    (hL : HasGradientAt nIds c.nDim L (upAt up) (fun i d => covTh c (θ t) cov i 0 d + covTh c (θ t) cov i 1 d * eta i d t))
+    (hnn : ∀ i d, i < nIds → d < c.nDim → 0 ≤ covTh c (θ t) cov i 1 d) :
+    let so := popSens (.gauss false) nIds c.nDim (covTh c (θ t) cov) (fun i d => eta i d t) up
+    so.defined = true ∧
+    covLLcore (.gauss false) nIds c.nDim (covTh c (θ t) cov) (fun i d => eta i d t) = so.score ∧
+    HasDerivAt (fun s => L (fun i d => covTh c (θ s) cov i 0 d + covTh c (θ s) cov i 1 d * eta i d s)
+        + stdNormalLL nIds c.nDim (fun i d => eta i d s))
+      (isum2 nIds c.nDim (fun i d => so.dpsi i d * eta' i d)
+        + ∑ j ∈ Finset.range c.nParams, covSensAt c nIds so.dtheta cov j * θ' j) t := by
+  intro so
+  have h := C05_gaussNC_grad nIds c.nDim (fun i d s => covTh c (θ s) cov i 0 d)
+    (fun i d s => covTh c (θ s) cov i 1 d) eta (fun i d => covTh c θ' cov i 0 d)
+    (fun i d => covTh c θ' cov i 1 d) eta' t up L
+    (fun i d _ _ => covTh_hasDerivAt c θ θ' t hθ cov i 0 d)
+    (fun i d _ _ => covTh_hasDerivAt c θ θ' t hθ cov i 1 d) heta hnn hL
+  have e1 := popSens_gaussNC nIds c.nDim (thOf (fun i d => covTh c (θ t) cov i 0 d)
+    (fun i d => covTh c (θ t) cov i 1 d)) (fun i d => eta i d t) up
+    (by intro i d hi hd; simpa [thOf] using hnn i d hi hd)
+  have e2 : so = _ := popSens_gaussNC nIds c.nDim (covTh c (θ t) cov) (fun i d => eta i d t) up hnn
+  simp only [thOf, if_true, one_ne_zero, if_false] at e1
+  rw [e1, ← e2] at h
+  obtain ⟨hdef, hscore, hder⟩ := h
+  refine ⟨hdef, ?_, C07_cov_chain c hn hr hper nIds cov θ' _ t so.dpsi eta' so.dtheta hder⟩
+  rw [e2]
+  rfl
+
+/-- END TO END, non-centred log-normal wrapped model (`ψ_i = exp(ϑ_i[0] + ϑ_i[1] η_i)`, via C05_lognNC_grad) -/
+theorem C07_grad_logn_noncentred (c : CovCfg) (hn : c.sel.Nodup) (hr : c.InRange) (hper : c.perDim = 2)
+    (nIds : Nat) (cov : Nat → Nat → ℝ) (θ : ℝ → Nat → ℝ) (θ' : Nat → ℝ) (t : ℝ)
+    (hθ : ∀ j, HasDerivAt (fun s => θ s j) (θ' j) t)
+    (eta : Nat → Nat → ℝ → ℝ) (eta' : Nat → Nat → ℝ)
+    (heta : ∀ i d, i < nIds → d < c.nDim → HasDerivAt (eta i d) (eta' i d) t)
+    (up : Option (Nat → Nat → ℝ)) (L : (Nat → Nat → ℝ) → ℝ)
+    (hL : HasGradientAt nIds c.nDim L (upAt up) (fun i d => Real.exp (covTh c (θ t) cov i 0 d + covTh c (θ t) cov i 1 d * eta i d t)))
+    (hnn : ∀ i d, i < nIds → d < c.nDim → 0 ≤ covTh c (θ t) cov i 1 d) :
+    let so := popSens (.logn false) nIds c.nDim (covTh c (θ t) cov) (fun i d => eta i d t) up
+    so.defined = true ∧
+    covLLcore (.logn false) nIds c.nDim (covTh c (θ t) cov) (fun i d => eta i d t) = so.score ∧
+    HasDerivAt (fun s => L (fun i d => Real.exp (covTh c (θ s) cov i 0 d + covTh c (θ s) cov i 1 d * eta i d s))
+        + stdNormalLL nIds c.nDim (fun i d => eta i d s))
+      (isum2 nIds c.nDim (fun i d => so.dpsi i d * eta' i d)
+        + ∑ j ∈ Finset.range c.nParams, covSensAt c nIds so.dtheta cov j * θ' j) t := by
+  intro so
+  have h := C05_lognNC_grad nIds c.nDim (fun i d s => covTh c (θ s) cov i 0 d)
+    (fun i d s => covTh c (θ s) cov i 1 d) eta (fun i d => covTh c θ' cov i 0 d)
+    (fun i d => covTh c θ' cov i 1 d) eta' t up L
+    (fun i d _ _ => covTh_hasDerivAt c θ θ' t hθ cov i 0 d)
+    (fun i d _ _ => covTh_hasDerivAt c θ θ' t hθ cov i 1 d) heta hnn hL
+  have e1 := popSens_lognNC nIds c.nDim (thOf (fun i d => covTh c (θ t) cov i 0 d)
+    (fun i d => covTh c (θ t) cov i 1 d)) (fun i d => eta i d t) up
+    (by intro i d hi hd; simpa [thOf] using hnn i d hi hd)
+  have e2 : so = _ := popSens_lognNC nIds c.nDim (covTh c (θ t) cov) (fun i d => eta i d t) up hnn
+  simp only [thOf, if_true, one_ne_zero, if_false] at e1
+  rw [e1, ← e2] at h
+  obtain ⟨hdef, hscore, hder⟩ := h
+  refine ⟨hdef, ?_, C07_cov_chain c hn hr hper nIds cov θ' _ t so.dpsi eta' so.dtheta hder⟩
+  rw [e2]
+  rfl
+
+
+/-- END TO END, pooled / heterogeneous wrapped model (no individual-level entries; `ψ_i` IS the
+    row `ownRow` of `ϑ_i`, so the model sits on its point mass and scores `0`): the reduced
+    gradient the code returns — the transposed map applied to `dtheta + dpsi` on that row — is the
+    derivative of the upstream part `L(ψ(θ))` along any differentiable curve of `θ = (ϑ₀, β)`: the
+    upstream sensitivities `dlogp_dpsi` reach `ϑ₀` and `β`. -/
+theorem C07_grad_pointmass (k : Kind) (hk : k = .pooled ∨ k = .hetero) (c : CovCfg)
+    (hn : c.sel.Nodup) (hr : c.InRange) (nIds : Nat) (hrow : ∀ i, i < nIds → ownRow k i < c.perDim)
+    (cov : Nat → Nat → ℝ) (θ : ℝ → Nat → ℝ) (θ' : Nat → ℝ) (t : ℝ)
+    (hθ : ∀ j, HasDerivAt (fun s => θ s j) (θ' j) t)
+    (up : Option (Nat → Nat → ℝ)) (L : (Nat → Nat → ℝ) → ℝ)
+    (hL : HasGradientAt nIds c.nDim L (upAt up) (fun i d => covTh c (θ t) cov i (ownRow k i) d)) :
+    let psi : Nat → Nat → ℝ := fun i d => covTh c (θ t) cov i (ownRow k i) d
+    let so := popSens k nIds c.nDim (covTh c (θ t) cov) psi up
+    so.defined = true ∧
+    covLLcore k nIds c.nDim (covTh c (θ t) cov) psi = .val 0 ∧
+    (covReduced k c nIds so.dpsi so.dtheta cov).length = c.nParams ∧
+    (∀ j, j < c.nParams → (covReduced k c nIds so.dpsi so.dtheta cov)[j]?
+      = some (covSensAt c nIds (fun i p d => if p = ownRow k i then so.dtheta i p d + so.dpsi i d
+          else so.dtheta i p d) cov j)) ∧
+    HasDerivAt (fun s => L (fun i d => covTh c (θ s) cov i (ownRow k i) d))
+      (∑ j ∈ Finset.range c.nParams, covSensAt c nIds (fun i p d =>
+        if p = ownRow k i then so.dtheta i p d + so.dpsi i d else so.dtheta i p d) cov j * θ' j) t := by
+  intro psi so
+  have hhier : k.hierarchical = false := by rcases hk with rfl | rfl <;> rfl
+  have e : so = ⟨.val 0, true, addUp up (fun _ _ => zero), fun _ _ _ => zero⟩ := by
+    rcases hk with rfl | rfl
+    · exact popSens_pooled nIds c.nDim _ psi up (fun i d _ _ => rfl)
+    · exact popSens_hetero nIds c.nDim _ psi up (fun i d _ _ => rfl)
+  have hscore : covLLcore k nIds c.nDim (covTh c (θ t) cov) psi = .val 0 := by
+    rcases hk with rfl | rfl
+    · exact popLL_pooled_val nIds c.nDim _ psi (fun i d _ _ => rfl)
+    · exact popLL_hetero_val nIds c.nDim _ psi (fun i d _ _ => rfl)
+  have hred := (C07_grad_reduced k c nIds so.dpsi so.dtheta cov).2.2 hhier
+  have hlen : (covReduced k c nIds so.dpsi so.dtheta cov).length = c.nParams := by
+    rw [hred]; exact (C07_grad_entries c nIds _ cov).1
+  refine ⟨by rw [e], hscore, hlen, ?_, ?_⟩
+  · intro j hj
+    rw [hred]
+    exact C07_covSens_getElem_opt c nIds _ cov j hj
+  · have h1 := hL (fun i d s => covTh c (θ s) cov i (ownRow k i) d)
+      (fun i d => covTh c θ' cov i (ownRow k i) d) t (fun _ _ => rfl)
+      (fun i d _ _ => covTh_hasDerivAt c θ θ' t hθ cov i (ownRow k i) d)
+    refine h1.congr_deriv ?_
+    rw [← C07_grad c hn hr nIds _ cov θ', isum2_eq]
+    refine Finset.sum_congr rfl fun i hi => ?_
+    have hi' : i < nIds := Finset.mem_range.mp hi
+    symm
+    rw [Finset.sum_eq_single (ownRow k i)]
+    · refine Finset.sum_congr rfl fun d _ => ?_
+      rw [e]
+      simp [addUp_apply, zero]
+    · intro p _ hp
+      refine Finset.sum_eq_zero fun d _ => ?_
+      rw [e]
+      simp [hp, zero]
+    · intro h
+      exact absurd (Finset.mem_range.mpr (hrow i hi')) h
 
 
 /-! ## 7. non-vacuity -/
